@@ -61,6 +61,12 @@ def cases(tier, seed):
         out.append(dict(entry=R.choice(["sample_layer_filtered", "toast_base"]), depth=R.choice([1, 1, 2]), cs=R.choice(["astronomical", "planetary"]), fmt=fmt, sampler=smp,
                         mode="update2", par=1, filt=R.choice([None, None, "posset"]), seed=R.randrange(1 << 30), concurrent=True))
     for i in range(3 if tier == "quick" else 20):
+        out.append(dict(entry=R.choice(["sample_layer", "sample_layer_filtered"]), depth=R.choice([1, 2]), cs=R.choice(["astronomical", "planetary"]), fmt=R.choice(["npy", "fits"]), sampler="f64pos",
+                        mode="clobber", par=1, filt=None, seed=R.randrange(1 << 30), flaky_sampler=True))
+    for i in range(3 if tier == "quick" else 20):
+        out.append(dict(entry=R.choice(["sample_layer", "sample_layer_filtered"]), depth=R.choice([1, 2]), cs="astronomical", fmt="npy", sampler="f32", mode="clobber" if i % 2 else "update",
+                        par=R.choice([2, 5]), filt=None, seed=R.randrange(1 << 30), kill_leaf=True))
+    for i in range(3 if tier == "quick" else 20):
         out.append(dict(entry="cli", depth=R.choice([0, 1, 2]), cs=R.choice(["astronomical", "planetary"]), fmt="png", sampler="map", mode="clobber", par=R.choice([1, 2]), filt=None, seed=R.randrange(1 << 30)))
     return out
 
@@ -227,6 +233,9 @@ def run_case(spec, workdir):
         def slow(f):
             # in parallel runs some tiles take much longer than every (dilated) time-out of the shutdown handshake
             def g(lon, lat):
+                if spec.get("flaky_sampler") and lon.size > 128 * 128 and (float(lat[0, 0]) * 1e5) % 1.0 < 0.3:
+                    # a source that cannot serve a whole 256x256 request for some tiles (it would for smaller ones)
+                    raise MemoryError("injected: request of %d points is too large for this source" % lon.size)
                 if _CONC["slow_first"] > 0:
                     # concurrent jobs: the source of the FIRST job is slow for its first tiles (the sampler runs inside the
                     # tile's locked region), so the second job arrives at a tile that is held for a long time
@@ -257,11 +266,32 @@ def run_case(spec, workdir):
 
         if tag == "par" and conc:
             outcome, info = run_concurrent_jobs(fn, spec["seed"])
+        elif k > 1 and spec.get("kill_leaf") and leaves:
+            # the worker that receives one leaf is killed by a signal before it can sample it: the run must not come back as if done
+            victim = sorted(leaves)[spec["seed"] % len(leaves)]
+            instr_mp._S["kill_on_item"] = list(victim)
+            outcome, info = models.run_stage(fn, log, "producer", watchdog=200)
+            recs_k = evlog.read(log)
+            evlog.close_log()
+            if outcome == "watchdog" or not any(r["k"] == "worker_killed" for r in recs_k):
+                return dict(status="inconclusive", detail="worker kill not reached / watchdog")
+            res_k = dict(counters=dict(layers=1, worker_kills=1), nontrivial=True, sample=dict(spec=spec, victim=victim, outcome=outcome))
+            if outcome != "raised":
+                res_k.update(status="violation", key="sampling-%s-although-a-worker-was-killed" % outcome, detail="the worker holding leaf %s was SIGKILLed; the sampling run ended as '%s' %s" % (victim, outcome, info))
+            return res_k
         elif k > 1:
             outcome, info = models.run_stage(fn, log, "producer", watchdog=200)
         else:
             evlog.ev("stage_call")
-            fn()  # exceptions from toasty propagate and are classified by the driver
+            if spec.get("flaky_sampler"):
+                try:
+                    fn()
+                except MemoryError:
+                    # the sampler's own failure reached the caller: nothing was promised about the tiles then
+                    evlog.close_log()
+                    return dict(counters=dict(layers=1, sampler_failures_reported=1), nontrivial=True, sample=dict(spec=spec))
+            else:
+                fn()  # exceptions from toasty propagate and are classified by the driver
             evlog.ev("stage_ret")
             outcome, info = "returned", {}
         recs = evlog.read(log)
